@@ -65,7 +65,7 @@ CHECKS.update({
                  "d < best and starts from >= 4.0 (R-ARGMIN); cwOffsetPent = the faces on which the deleted K wedge is the clockwise neighbour of the pentagon's wedge (T19); the digit "
                  "rotations _faceIjkToH3 applies (_h3Rotate60ccw/cw, _h3RotatePent60ccw/cw) rotate exactly the digits 1..res, for all index values.",
                  "containment of the point in the returned cell (floating-point geometry: rounding, gnomonic projection), success on arbitrary finite coordinates.",
-                 "R-GUARD " + G + "; R-ARGMIN loop-exit / threshold rule against the face-centre table; " + BP + "; R-TAB T6,T16,T19 " + TAB),
+                 "R-GUARD " + G + "; R-ARGMIN loop-exit / threshold rule against the face-centre table; " + BP + "; R-TAB T6,T16,T19 " + TAB + "; R-PROG progression-table rule"),
  "C03": _partial("C03", "getNumCells = 2+120*7^res for res 0..15 and equals 110 hexagon + 12 pentagon trees of the tables; pentagonCount/res0CellCount/enumerator bounds agree with "
                  "the tables (T7); every base cell's home address looks itself up, cross-face lookup entries agree (T4), face adjacency maps are mutual inverses (T5), "
                  "overage scale tables (T9), cwOffsetPent (T19); res-domain rejections of getNumCells/getPentagons; the validity predicate that 'valid cells number exactly' "
@@ -145,8 +145,9 @@ CHECKS.update({
                  "R-ALLOC allocation typestate; R-OWN ownership-protocol rules over LLVM IR (incl. L6: no object is handed to addNewLinkedPolygon twice; L7: the hole loop visits every collected hole); "
                  "R-SIB pairing rules (a loop keeps the bounding box it was tested with; candidate arrays are forwarded with their length)"),
  "C19": _partial("C19", "maxFaceCount = 5 for a pentagon else 2; getIcosahedronFaces initialises and writes only slots below that count (relation facts incl. the insertion loop); "
-                 "face adjacency tables (T5, T9).",
-                 "that the reported faces are exactly the intersected ones (overage geometry).", "R-CFORM " + CF + "; R-BW " + BW + "; R-TAB T5,T9 " + TAB),
+                 "face adjacency tables (T5, T9); the dispatch between the methods: a pentagon at an even (Class II) resolution never reaches a vertex method, an odd-resolution "
+                 "pentagon never the hexagon method nor the recursion, a hexagon never the pentagon method (guard rows of kind reach).",
+                 "that the reported faces are exactly the intersected ones (overage geometry).", "R-CFORM " + CF + "; R-BW " + BW + "; R-GUARD " + G + "; R-TAB T5,T9 " + TAB),
  "C20": _partial("C20", "one unpadded lower-case 64-bit %x applied to the whole index and written to str; longest output (derived from the format) + NUL never reachable with a "
                  "smaller sz; sz < 17 => E_MEMORY_BOUNDS with the buffer untouched and sz = 17 accepted; stringToH3 parses with the same conversion, stores only when exactly one item "
                  "was converted, otherwise returns an error. Given the C standard's semantics of %lx these imply the round trip for all 2^64 values.",
